@@ -362,6 +362,24 @@ Proof.
     unfold reset_all. apply in_map_iff. exists (k, i). split; [cbn [fst snd]; rewrite Hres; reflexivity|exact Hin].
 Qed.
 
+(** ... and when that node dies afterwards, the rejoined node - which learnt the instance through the
+    SNAPSHOT only, no batch and no anti-entropy round in between - drops it like everybody else:
+    the snapshot arm records the sender's client ids ([AddClientIds]) *)
+Corollary rejoin_then_death_clean : forall J S k c v,
+  sn_id S <> 0 -> wf_own S -> own S k = Some (c, v) ->
+  aget k (sn_reg (fst (mark_dead (join_pull J S) (sn_id S)))) = None.
+Proof.
+  intros J S k c v Hnz WS Ho. destruct (rejoin_receives_snapshot J S k c v Hnz WS Ho) as [Hk Hp].
+  unfold mark_dead.
+  destruct (reg_remove_clients (sn_reg (join_pull J S)) (peers_of (sn_id S) (sn_peers (join_pull J S)))) as [r1 ns] eqn:E.
+  cbn [fst sn_reg].
+  replace r1 with (fst (reg_remove_clients (sn_reg (join_pull J S)) (peers_of (sn_id S) (sn_peers (join_pull J S)))))
+    by (rewrite E; reflexivity).
+  rewrite aget_reg_remove_clients, Hk. cbn [si_client].
+  apply peers_has_In, peers_of_In, cid_mem_In in Hp. rewrite Hp. reflexivity.
+Qed.
+
+
 (** * applying a batch *)
 
 (** an update entry of a batch with distinct keys is what the receiver stores, attributed to the
